@@ -97,6 +97,28 @@ def run(pid, tier):
         cases.append({'id': 'pp-' + c['id'], 'kind': 'doc', 'what': 'problem', 'doc': c['problem']})
         for k, m in enumerate(c['matrices'] or []):
             cases.append({'id': 'mx-%s-%d' % (c['id'], k), 'kind': 'doc', 'what': 'matrix', 'doc': m})
+    # bundled documents written for an older format: members the current model does not have (ignored by the reader, so absent from the
+    # first pass) and one solution that lacks a member that is mandatory now - stale documents, not reader defects
+    STALE_MEMBERS = {'ex-basics_multi-job.basic.solution.json': 'tag', 'ex-basics_multi-job.mixed.solution.json': 'tag',
+                     'ex-basics_multi-objective.maximize-value.problem.json': 'reductionFactor', 'ex-basics_unassigned.unreachable.problem.json': 'latest',
+                     'ex-clustering_berlin.vicinity-continue.problem.json': 'type', 'ex-clustering_berlin.vicinity-return.problem.json': 'type'}
+    STALE_DOCUMENTS = {'ex-basics_unassigned.unreachable.solution.json'}
+    # the documents bundled with the repository (every documented feature appears in one of them): problems, matrices, solutions
+    ex_root = os.path.join(common.REPO, 'examples', 'data', 'pragmatic')
+    n_examples = 0
+    for dirpath, _, files in sorted(os.walk(ex_root)):
+        for f in sorted(files):
+            what = 'solution' if f.endswith('.solution.json') else 'matrix' if '.matrix' in f else 'problem' if (f.endswith('.problem.json') or 'benches' in dirpath) else None
+            if what:
+                try:
+                    doc = json.load(open(os.path.join(dirpath, f)))
+                except ValueError:
+                    continue
+                eid = 'ex-' + os.path.relpath(os.path.join(dirpath, f), ex_root).replace('/', '_')
+                if eid in STALE_DOCUMENTS:
+                    continue
+                cases.append({'id': eid, 'kind': 'doc', 'what': what, 'doc': doc})
+                n_examples += 1
     tstep = 9 if tier == 'quick' else 2
     tabs = tables[::tstep]
     for x in tabs:
@@ -131,6 +153,11 @@ def run(pid, tier):
     for r in res:
         if r['kind'] == 'init' and r['status'] in ('init-err', 'rewrite-err') and 'written' in r and overused_conditional(init_by_id[r['id']], r['written']):
             r['status'] = 'solve-err'; invalid_written += 1
+    for r in res:
+        if r['id'].startswith('ex-') and r.get('status') == 'ok':
+            # bundled documents leave defaults out: only members that get LOST count, stale members aside
+            gone = [m for m in r.get('lost', []) if m.rsplit('.', 1)[-1] != STALE_MEMBERS.get(r['id'])]
+            r['firstPassSame'], r['firstPassDiff'] = not gone, 'members lost by the first pass: %s' % gone[:5] if gone else ''
     recs, details = [], {}
     for r in res + res2:
         rec = {'id': r['id'], 'kind': r['kind'], 'status': r['status'], 'fixpoint': bool(r.get('fixpoint', False)), 'firstPassSame': bool(r.get('firstPassSame', False)),
@@ -206,7 +233,7 @@ def run(pid, tier):
            'rule': 'one evaluation = one document passed through serialise-parse-serialise twice, or one solve whose written solution is read back as initial solution and written again, or one CSV table pair imported; non-trivial = init round trips with at least one tour',
            'samples': [{'id': recs[-3]['id'], 'rows': recs[-3]['rows'], 'vrows': recs[-3]['vrows'], 'imported': recs[-3]['P']}], 'exhaustive': False,
            'records_by_kind': {'%s %s' % k: v for k, v in kinds.items()}, 'init_status': dict(collections.Counter(r['status'] for r in recs if r['kind'] == 'init')),
-           'first_pass_differs_from_original_document': sum(1 for r in res + res2 if r['kind'] == 'doc' and r.get('status') == 'ok' and not r.get('firstPassSame')),
+           'bundled_example_documents': n_examples, 'first_pass_differs_from_original_document': sum(1 for r in res + res2 if r['kind'] == 'doc' and r.get('status') == 'ok' and not r.get('firstPassSame')),
            'written_solutions_with_a_break_or_reload_used_twice_left_to_C02': invalid_written, 'canaries_rejected': len(cans), 'known_finding_hits': {k: len(v) for k, v in verdict.known_hits.items()}}
     common.write_evidence(pid, tier, 'model_checking', cov, time.time() - t0, len(verdict.violations),
                           ['document equality is computed by the harness on JSON values (TLC reads no floating point numbers); the float palette is what the generators produce (integers, halves, quarters, RFC3339 dates); '
